@@ -53,6 +53,10 @@ PlanDrift(r) ==
         \o F(p.toWrite = SetOf(r.plan.toWrite), "drift:plan_stores_to_write")
         \o F(p.writers = SetOf(r.plan.writers), "drift:plan_output_writers"))
 
+\* a program with a block index and block-filtered modules also decides C15 (index present / absent must not change results)
+HasIndex == \E i \in DOMAIN prog.mods : prog.mods[i].kind = "index"
+Retag(sigs) == sigs \o (IF HasIndex THEN [i \in DOMAIN sigs |-> "C15" \o SubSeq(sigs[i], 4, Len(sigs[i]))] ELSE <<>>)
+
 Init == l = 1 /\ bad = <<>> /\ drift = <<>> /\ prog = <<>>
 Next ==
   /\ l <= Len(Trace)
@@ -61,7 +65,7 @@ Next ==
      IF r.k = "jobprog" THEN prog' = r /\ UNCHANGED <<bad, drift>>
      ELSE IF r.k = "jobref" THEN
         /\ bad' = Append(bad, [i |-> l, why |-> <<"C07:clean_reference_run_failed">>]) /\ UNCHANGED <<drift, prog>>
-     ELSE LET f == JobFails(r)  d == PlanDrift(r) IN
+     ELSE LET f == Retag(JobFails(r))  d == PlanDrift(r) IN
         /\ bad' = IF f = <<>> THEN bad ELSE Append(bad, [i |-> l, why |-> f])
         /\ drift' = IF d = <<>> THEN drift ELSE Append(drift, [i |-> l, why |-> d])
         /\ UNCHANGED prog
